@@ -51,8 +51,8 @@ Proof. exact connected_sound. Qed.
     ends normally only with EVERY declared exchange of every component done; otherwise the
     circular-coupling error lists, in list order, exactly the positions of the components that
     still have an outstanding declared exchange ([stuck_idx], characterised below), and at least one.
-    This is the proved part of [C06_fixpoint_full]. *)
-Theorem C06_fixpoint_partial :
+    (Operational form; [C06_fixpoint_full] below relates it to derivability.) *)
+Theorem C06_stall_set :
   forall (sp : spec) (cs : list comp),
     disjoint_slots cs ->
     let r := connect_run sp cs in
@@ -68,12 +68,13 @@ Theorem C06_stuck_idx_exact :
     exists c, nth_error cs n = Some c /\ exists it, In it (declared sp c) /\ done w it = false.
 Proof. exact stuck_idx_exact. Qed.
 
-(** FULL fixed-point statement (NOT proved in Coq; its content is checked on every run by the
-    declarative least-fixed-point monitor of harness/props/c06.py against the real finam):
-    for a well-formed setup the final set of done items is the least fixed point of the
-    derivation rules [step]; if every declared item is derivable (dependencies acyclic) the loop
-    ends with Success, otherwise the error lists exactly the components owning an underivable item. *)
-Definition C06_fixpoint_full : Prop :=
+(** The final set of done items is the LEAST FIXED POINT of the declarative derivation rules
+    [step] (FV.Connect): for every well-formed setup (each slot owned by exactly one component,
+    [sp_ins] = the owned inputs) an item is done after the loop iff it is derivable; if every
+    declared item is derivable (the dependencies are acyclic / well-founded) the loop ends with
+    Success; otherwise the circular-coupling error lists exactly the positions of the components
+    that own an underivable declared item. *)
+Theorem C06_fixpoint_full :
   forall (sp : spec) (cs : list comp),
     wf_setup sp cs ->
     let r := connect_run sp cs in
@@ -82,6 +83,7 @@ Definition C06_fixpoint_full : Prop :=
     /\ (forall L, r_out r = Circular L ->
                   forall n, In n L <-> exists c, nth_error cs n = Some c
                                                  /\ exists it, In it (declared sp c) /\ ~ derivable sp cs it).
+Proof. exact fixpoint_full_holds. Qed.
 
 (** Initial data, for EVERY setup and whatever the outcome: an output whose data was pushed holds
     exactly the publications of [pushed_entries]: nothing without targets, one untimed entry when
@@ -134,9 +136,8 @@ Proof. vm_compute. repeat split; auto. Qed.
 Example C06_nonvacuous_wf : wf_setup (ex_sp false) ex_comps /\ disjoint_slots ex_comps.
 Proof.
   assert (D : disjoint_slots ex_comps) by (split; simpl; repeat constructor; simpl; intuition discriminate).
-  split; [|exact D]. split; [exact D|]. split; [simpl; repeat constructor; simpl; intuition discriminate|]. split.
-  - intros i. unfold own_in. simpl. tauto.
-  - intros c Hc _. simpl in Hc. intuition (subst; reflexivity).
+  split; [|exact D]. split; [exact D|]. split; [simpl; repeat constructor; simpl; intuition discriminate|].
+  intros i. unfold own_in. simpl. tauto.
 Qed.
 
 Example C06_nonvacuous_stall_set :
@@ -144,6 +145,23 @@ Example C06_nonvacuous_stall_set :
   stuck_idx (ex_sp false) (r_world r) 0 ex_comps = [0; 1; 2]
   /\ o_dpushed (wo (r_world (connect_run (ex_sp true) ex_comps)) 0) = true.
 Proof. vm_compute. split; reflexivity. Qed.
+
+(** with the breaker every declared item is derivable, without it the pulls are not *)
+Example C06_nonvacuous_fixpoint :
+  derivable (ex_sp true) ex_comps (IPulled 1)
+  /\ ~ derivable (ex_sp false) ex_comps (IPulled 1)
+  /\ derivable (ex_sp false) ex_comps (IOutInfo 0).
+Proof.
+  assert (WT : wf_setup (ex_sp true) ex_comps).
+  { assert (D : disjoint_slots ex_comps) by (split; simpl; repeat constructor; simpl; intuition discriminate).
+    split; [exact D|]. split; [simpl; repeat constructor; simpl; intuition discriminate|].
+    intros i. unfold own_in. simpl. tauto. }
+  destruct C06_nonvacuous_wf as [WF _].
+  split; [|split].
+  - apply (proj1 (C06_fixpoint_full _ _ WT)). vm_compute. reflexivity.
+  - intros H. apply (proj1 (C06_fixpoint_full _ _ WF)) in H. vm_compute in H. discriminate.
+  - apply (proj1 (C06_fixpoint_full _ _ WF)). vm_compute. reflexivity.
+Qed.
 
 (** a single call that makes progress without completing, from the initial state *)
 Example C06_nonvacuous_call :
@@ -155,6 +173,7 @@ Proof. eexists. vm_compute. repeat split. Qed.
 Print Assumptions C06_terminates.
 Print Assumptions C06_progress_iff.
 Print Assumptions C06_connected_sound.
-Print Assumptions C06_fixpoint_partial.
+Print Assumptions C06_stall_set.
 Print Assumptions C06_stuck_idx_exact.
+Print Assumptions C06_fixpoint_full.
 Print Assumptions C06_initial_data.
